@@ -275,6 +275,22 @@ theorem verifier_needed :
   · rw [seed_publishes]; simp [verify, checkRow, C03Row, hasNan, Ent.isNan]; decide
 
 /-! ### non-vacuity -/
+/-- steps that never add a parameter (with the most generous `Exact`, every such step is `StepSound`) -/
+def SeedSteps (effs : List (Eff String Nat (List (Ent String)))) : Prop :=
+  ∀ t : Tri String Nat (List (Ent String)), ∀ o, np2 t.str ≤ 2 → np2 (runBlock t effs o).str ≤ 2
+theorem seed_stepSound : StepSound np2 2 (fun _ => True) SeedSteps :=
+  ⟨fun t _ hS ht => ⟨hS t none ht.1, Or.inr trivial⟩, fun t _ k hS ht => ⟨hS t (some k) ht.1, Or.inr trivial⟩⟩
+theorem seed_steps : ∀ c ∈ [seedCall], ∀ b ∈ c, SeedSteps b.1 := by
+  intro c _ b _ t o _
+  show np2 _ ≤ 2
+  unfold np2; split <;> omega
+/-- `fault_schedule_sound_with_verifier` applies to the seed's schedule with today's `check_results` -/
+example : C03Row np2 2 (fun _ => True)
+    (verify (checkRow np2 2 (fun _ => true) skipOnNanToday) seedGlob (runSchedule seedGlob [seedCall])) :=
+  fault_schedule_sound_check_results np2 2 (fun _ => True) SeedSteps seed_stepSound (fun _ => true) seedGlob trivial
+    [seedCall] seed_steps seedGlob ⟨by decide, Or.inr trivial⟩
+example : runBlock seedGlob [.setSym 1, .updInv (· ++ [Ent.nan]), .setStr "a0"] (some 2) = ⟨"a0 - a1", 0, [Ent.nan]⟩ :=
+  fault_leaves_stale_record seedGlob 1 "a0"
 /-- the hypotheses of `fault_schedule_sound_with_verifier` are satisfiable on the seed's schedule, and with today's verifier the
 row ends un-merged with the identity map -/
 example : verify (checkRow np2 2 (fun _ => true) skipOnNanToday) seedGlob (runSchedule seedGlob [seedCall]) = ⟨"a0 - a1", 0, []⟩ := by
